@@ -572,7 +572,7 @@ func c17Parse(src string, flags []bool) (o k1Out) {
 // expression registration gives
 func init() {
 	cmds["c17-bare"] = func(args []string) {
-		progs := []string{"K12", "1 + K7 * 2", "[K3, K40]", "K5 rest", "K1 + K1", "x = K9; x + K2", "func g() { K6 }; g() + g()", "`a{K4}b`", "K007 - 7", "(K3)"}
+		progs := []string{"K12", "1 + K7 * 2", "[K3, K40]", "K5 rest", "K1 + K1", "x = K9; x + K2", "func g() { K6 }; g() + g()", "`a{K4}b`", "K007 - 7", "(K3)", "K3!", "K12+K5", "K", "K x", "Kx1", "1+K", "[K2,K,K3]", "K9力量", "g(K1)", "K1?K2:K3"}
 		type obs struct {
 			Ok     bool     `json:"ok"`
 			Err    string   `json:"err"`
@@ -581,7 +581,7 @@ func init() {
 			Rest   string   `json:"rest"`
 			G0     []string `json:"g0"`
 		}
-		run := func(stream bool, src string) (o obs) {
+		run := func(stream bool, style int, src string) (o obs) {
 			vm := newVM(allOn(), 3, 4, true)
 			h := func(ctx *ds.Context, groups []string, payload any) (*ds.VMValue, string, error) {
 				g0 := "<none>"
@@ -594,11 +594,56 @@ func init() {
 			}
 			if stream {
 				_ = vm.RegCustomDiceParser(func(ctx *ds.Context, st *ds.CustomDiceStream) (*ds.CustomDiceParseResult, error) {
-					if ch, ok := st.Read(); !ok || ch != 'K' {
+					readK := func() bool {
+						ch, ok := st.Read()
+						return ok && ch == 'K'
+					}
+					switch style {
+					case 1:
+						// two forms tried one after the other on the same stream: K<d>T<d> first (it fails on a peek-based check
+						// behind the digits), the parser resets the attempt ITSELF and goes on with K<d>
+						if readK() {
+							if _, ok := st.ReadDigits(); ok {
+								if ch, ok := st.Peek(); ok && ch == 'T' {
+									st.Read()
+									if _, ok := st.ReadDigits(); ok {
+										return &ds.CustomDiceParseResult{Matched: true}, nil
+									}
+								}
+							}
+						}
+						st.ResetAttempt()
+					case 2:
+						// looks ahead, steps back, asks where it is: none of this may change what is matched
+						if ch, ok := st.Peek(); !ok || ch != 'K' {
+							return nil, nil
+						}
+						_ = st.Remaining()
+						st.Read()
+						st.Unread()
+						_ = st.Consumed()
+						_, _ = st.Peek()
+					case 3:
+						// reads far ahead, resets, peeks, resets again
+						for k := 0; k < 5; k++ {
+							st.Read()
+						}
+						st.ResetAttempt()
+						_, _ = st.Peek()
+						st.ResetAttempt()
+					}
+					if !readK() {
 						return nil, nil
 					}
 					if _, ok := st.ReadDigits(); !ok {
 						return nil, nil
+					}
+					if style == 2 {
+						// one past the token and back
+						if _, ok := st.Read(); ok {
+							st.Unread()
+						}
+						_ = st.Current()
 					}
 					return &ds.CustomDiceParseResult{Matched: true}, nil
 				}, h)
@@ -610,7 +655,9 @@ func init() {
 			return
 		}
 		for _, p := range progs {
-			emit(map[string]any{"src": p, "stream": run(true, p), "regex": run(false, p)})
+			for style := 0; style < 4; style++ {
+				emit(map[string]any{"src": p, "style": style, "stream": run(true, style, p), "regex": run(false, 0, p)})
+			}
 		}
 	}
 }
